@@ -32,6 +32,17 @@ TRANSQUEUE = [("QuartzModel.Theorems.TransQueue", "TransQueue." + t) for t in [
         "trans_matcher_status", "trans_matcher_ctors", "qerr_ne_nil", "qerr_injective"]] + \
     [("QuartzModel.Proofs.TransQueueRunLemmas", "TransQueue." + t) for t in ["step_size_le", "tstep_sim", "trun_sim"]]
 
+# quartz/scheduler.go (validateJob, fetchAndReschedule, the registry methods) and quartz/trigger.go, translated by harness/cmd/gotolean-sched -> Generated/TransSched.lean
+def _ts(*names):
+    return [("QuartzModel.Theorems.TransSched", "TransSched." + t) for t in names]
+TRANSSCHED_STEP = _ts("trans_sched_nothing_missing", "trans_validateJob", "trans_fetchAndReschedule")
+TRANSSCHED_C03 = TRANSSCHED_STEP + _ts("C03_never_early_trans", "C03_never_early_any_queue")
+TRANSSCHED_C04 = TRANSSCHED_STEP + _ts("trans_addNanos", "trans_addNanos_goAddNanos", "trans_simpleTrigger_fire", "trans_runOnceTrigger_fire",
+                                       "C04_misfire_iff_late_trans", "C04_accounted_trans")
+TRANSSCHED_REG = _ts("trans_sched_nothing_missing", "trans_ScheduleJob", "trans_DeleteJob", "trans_PauseJob", "trans_ResumeJob", "trans_Clear", "trans_GetScheduledJob",
+                     "trans_GetJobKeys", "C09_schedule_error_unchanged_trans", "C09_delete_error_unchanged_trans", "C09_pause_error_unchanged_trans",
+                     "C09_resume_error_unchanged_trans", "C09_delete_error_iff_trans")
+
 ODO = [("QuartzModel.Proofs.Odometer", t) for t in ["Odo.findForward_spec", "Odo.loop_fuel", "Odo.μ6_measure"]]
 
 # the dispatch step and the API calls are atomic with respect to each other because of the queue lock: its facts are obligations
@@ -118,15 +129,15 @@ THEOREMS = {
            [("QuartzModel.Proofs.ZoneLemmas", "Cron.zoneLoop_spec"), ("QuartzModel.Proofs.ZoneLemmas", "Cron.zoneLoop_fuel")] + FACTS[:2] +
            # the C14 theorems hold for the TRANSLATED NextFireTime (loop and state machine), for an arbitrary zone
            TRANS + TRANSCRON_C14,
-    "C03": TIMERFACTS + COMPOSE[:3] + COMPOSE[8:] + SCHEDFACTS + [("QuartzModel.Theorems.C03", "Sched." + t) for t in ['C03_dispatch_has_entry', 'C03_never_early', 'C03_dispatch_is_popped_min', 'C03_own_trigger_once', 'C03_dispatch_answers_own_trigger', 'C03_at_most_once']], "C04": COMPOSE[3:8] + SCHEDFACTS + [("QuartzModel.Theorems.C12", "Pool.C12_facts")] + [("QuartzModel.Theorems.C04", "Sched." + t) for t in ['C04_accounted', 'C04_suspended_untouched', 'C04_misfire_iff_late', 'C04_misfire_only_if_late', 'C04_leaves_registry', 'C04_no_drift', 'C04_no_drift_start', 'C04_run_once', 'C04_hyps_reachable',
+    "C03": TRANSSCHED_C03 + TIMERFACTS + COMPOSE[:3] + COMPOSE[8:] + SCHEDFACTS + [("QuartzModel.Theorems.C03", "Sched." + t) for t in ['C03_dispatch_has_entry', 'C03_never_early', 'C03_dispatch_is_popped_min', 'C03_own_trigger_once', 'C03_dispatch_answers_own_trigger', 'C03_at_most_once']], "C04": TRANSSCHED_C04 + COMPOSE[3:8] + SCHEDFACTS + [("QuartzModel.Theorems.C12", "Pool.C12_facts")] + [("QuartzModel.Theorems.C04", "Sched." + t) for t in ['C04_accounted', 'C04_suspended_untouched', 'C04_misfire_iff_late', 'C04_misfire_only_if_late', 'C04_leaves_registry', 'C04_no_drift', 'C04_no_drift_start', 'C04_run_once', 'C04_hyps_reachable',
         'C04_saturates', 'C04_interval_answer', 'C04_saturated_registered', 'C04_saturated_not_due', 'C04_saturated_never_spins',
         'wrapAdd_neg', 'C04_addNanos_is_satAdd', 'C04_overflow_spins_unrepaired']] +
            [("QuartzModel.Proofs.SchedLemmas", "Sched." + t) for t in ['satAdd_eq', 'satAdd_sat', 'satAdd_le', 'satAdd_ge', 'no_drift_aux', 'parked_aux']] +
            # the interval triggers of the source are the model's (regenerated fact: SimpleTrigger / RunOnceTrigger / addNanos statements)
-           [("QuartzModel.Theorems.TriggerFacts", "Sched.trigger_interval_add"), ("QuartzModel.Theorems.TriggerFacts", "Sched.trigger_fire_spec")], "C08": CLOCKFACTS + SCHEDFACTS + WAKEFACTS + [("QuartzModel.Theorems.C12", "Pool.C12_facts")] + [("QuartzModel.Theorems.C08", "Sched." + t) for t in ['C08_pause_effect', 'C08_resume_from_now', 'C08_paused_no_consumption', 'C08_delete_effect', 'C08_clear_effect', 'C08_paused_no_consumption_reachable', 'C08_delete_effect_reachable', 'C08_clear_effect_reachable',
+           [("QuartzModel.Theorems.TriggerFacts", "Sched.trigger_interval_add"), ("QuartzModel.Theorems.TriggerFacts", "Sched.trigger_fire_spec")], "C08": TRANSSCHED_STEP + _ts("trans_PauseJob", "trans_ResumeJob", "trans_DeleteJob", "trans_Clear") + CLOCKFACTS + SCHEDFACTS + WAKEFACTS + [("QuartzModel.Theorems.C12", "Pool.C12_facts")] + [("QuartzModel.Theorems.C08", "Sched." + t) for t in ['C08_pause_effect', 'C08_resume_from_now', 'C08_paused_no_consumption', 'C08_delete_effect', 'C08_clear_effect', 'C08_paused_no_consumption_reachable', 'C08_delete_effect_reachable', 'C08_clear_effect_reachable',
                 # the full-strength "ResumeJob re-activates it" is FALSE for a run-once job paused before its fire time: proved witness (known finding)
                 'C08_resume_run_once_fails']],
-    "C09": CLOCKFACTS + [("QuartzModel.Theorems.C09", "Sched." + t) for t in ['C09_schedule_error_unchanged', 'C09_schedule_error_state_unchanged', 'C09_delete_error_unchanged', 'C09_pause_error_unchanged', 'C09_resume_error_unchanged', 'C09_schedule_error_iff', 'C09_delete_error_iff', 'C09_pause_error_iff', 'C09_resume_error_iff', 'C09_keys_unique', 'C09_keys_unique_entry', 'C09_keys_unique_count', 'C09_replace_exact', 'C09_no_replace_rejected']] + [("QuartzModel.Theorems.C09Lin", "Sched." + t) for t in ["C09_lock_facts", "C09_unlocked_are_reads", "C09_schedule_reads_under_lock", "pauseOp_run", "C09_linearizable"]] +
+    "C09": TRANSSCHED_REG + CLOCKFACTS + [("QuartzModel.Theorems.C09", "Sched." + t) for t in ['C09_schedule_error_unchanged', 'C09_schedule_error_state_unchanged', 'C09_delete_error_unchanged', 'C09_pause_error_unchanged', 'C09_resume_error_unchanged', 'C09_schedule_error_iff', 'C09_delete_error_iff', 'C09_pause_error_iff', 'C09_resume_error_iff', 'C09_keys_unique', 'C09_keys_unique_entry', 'C09_keys_unique_count', 'C09_replace_exact', 'C09_no_replace_rejected']] + [("QuartzModel.Theorems.C09Lin", "Sched." + t) for t in ["C09_lock_facts", "C09_unlocked_are_reads", "C09_schedule_reads_under_lock", "pauseOp_run", "C09_linearizable"]] +
            [("QuartzModel.Concurrency.Lock", "Lock.linearizable")] +
            # the loop's pop / classify / ask-the-trigger / push step is one critical section (one atomic step of the linearizability argument)
            [t for t in SCHEDFACTS if t[1] not in ("Sched.C09_lock_facts", "Sched.C09_unlocked_are_reads")],
